@@ -114,7 +114,14 @@ def _run_tasks(tasks, nproc, deadline):
                 except (EOFError, OSError):
                     done = {'contract': name, 'instance': '', 'obligations': [], 'error': 'worker died without a result'}
             elif not pr.is_alive():
-                done = {'contract': name, 'instance': '', 'obligations': [], 'error': 'worker died without a result'}
+                # the child may have sent its result and exited between the two tests above
+                if pc.poll(0.5):
+                    try:
+                        done = pc.recv()
+                    except (EOFError, OSError):
+                        done = None
+                if done is None:
+                    done = {'contract': name, 'instance': '', 'obligations': [], 'error': 'worker died without a result'}
             elif time.time() - ts > deadline and (kind, job) not in retried:
                 # one retry in a fresh process: such hangs depend on timing (which obligations the parallel solver
                 # passes left open), not on the input
